@@ -57,35 +57,28 @@ def splitFirstAux : List Char → List Char → Name × Name
 
 def splitFirst (path : Name) : Name × Name := splitFirstAux path []
 
-/-- `ConfiguredLogger::add`. The recursion of the Rust function follows `rest`, which gets shorter
-whenever a `"::"` was found; when none was found and the child exists, the code calls
-`child.add("")`, which keeps descending through children keyed `""` — that is the only way the
-path does not shrink, so the fuel is `path length + depth of the tree + 1` (see `add`). -/
-def addAux : Nat → Node → Name → List Nat → Bool → Nat → Node
-  | 0, node, _, _, _, _ => node
+/-- `ConfiguredLogger::add`, returning the new node and whether the call (or a recursive one) took the
+branch "child exists and `rest` is empty" (`child.add("")`).
+The recursion of the Rust function follows `rest`, which gets shorter whenever a `"::"` was found; when
+none was found and the child exists, the code calls `child.add("")`, which keeps descending through
+children keyed `""` — that is the only way the path does not shrink. Lean needs a structurally decreasing
+argument: the fuel. `add` passes `path length + depth of the tree + 1`; `addAux_fuel` (LemmasTree) proves
+that any larger fuel gives the same result, i.e. the `0` arm is never what `add` returns. -/
+def addAux : Nat → Node → Name → List Nat → Bool → Nat → Node × Bool
+  | 0, node, _, _, _, _ => (node, false)
   | fuel + 1, node, path, apps, additive, level =>
     let pr := splitFirst path
     match lookup pr.1 node.children with
     | some child =>
-      Node.mk node.level node.apps
-        (setChild pr.1 (addAux fuel child pr.2 apps additive level) node.children)
+      let r := addAux fuel child pr.2 apps additive level
+      (Node.mk node.level node.apps (setChild pr.1 r.1 node.children), pr.2.isEmpty || r.2)
     | none =>
-      let child :=
-        if pr.2.isEmpty then
-          Node.mk level (apps ++ (if additive then node.apps else [])) []
-        else
-          addAux fuel (Node.mk node.level node.apps []) pr.2 apps additive level
-      Node.mk node.level node.apps (node.children ++ [(pr.1, child)])
-
-/-- does `add` reach the branch "child exists and `rest` is empty" (`child.add("")`)?
-Shadow of `addAux` with the same case analysis; below a freshly created node nothing exists. -/
-def weirdAux : Nat → Node → Name → Bool
-  | 0, _, _ => false
-  | fuel + 1, node, path =>
-    let pr := splitFirst path
-    match lookup pr.1 node.children with
-    | some child => pr.2.isEmpty || weirdAux fuel child pr.2
-    | none => false
+      if pr.2.isEmpty then
+        (Node.mk node.level node.apps
+          (node.children ++ [(pr.1, Node.mk level (apps ++ (if additive then node.apps else [])) [])]), false)
+      else
+        let r := addAux fuel (Node.mk node.level node.apps []) pr.2 apps additive level
+        (Node.mk node.level node.apps (node.children ++ [(pr.1, r.1)]), r.2)
 
 mutual
 /-- `ConfiguredLogger::max_log_level`: `max = self.level; for child { max = cmp::max(max, child.max()) }` -/
@@ -104,10 +97,8 @@ def depthList : List (Name × Node) → Nat
   | (_, n) :: rest => max (n.depth + 1) (depthList rest)
 end
 
-def add (node : Node) (path : Name) (apps : List Nat) (additive : Bool) (level : Nat) : Node :=
+def add (node : Node) (path : Name) (apps : List Nat) (additive : Bool) (level : Nat) : Node × Bool :=
   addAux (path.length + node.depth + 1) node path apps additive level
-
-def weird (node : Node) (path : Name) : Bool := weirdAux (path.length + node.depth + 1) node path
 
 /-- `ConfiguredLogger::find`: `for part in path.split("::") { match get(part) { Some(c) => node = c, None => break } }` -/
 def find : Node → List Name → Node
@@ -160,57 +151,63 @@ def sortByKey {α} (key : α → Nat) : List α → List α
   | [] => []
   | x :: xs => insertByKey key x (sortByKey key xs)
 
-def addLogger (t : Node) (l : RLogger) : Node := add t l.name l.apps l.additive l.level
+/-- one iteration of `for logger in loggers { root.add(..) }`; the Boolean accumulates "the `child.add("")`
+branch was taken somewhere so far" -/
+def addLogger (st : Node × Bool) (l : RLogger) : Node × Bool :=
+  let r := add st.1 l.name l.apps l.additive l.level
+  (r.1, st.2 || r.2)
 
-def buildTree (rootLevel : Nat) (rootApps : List Nat) (ls : List RLogger) : Node :=
-  (sortByKey (fun l => byteLen l.name) ls).foldl addLogger (Node.mk rootLevel rootApps [])
-
-/-- was the `child.add("")` branch taken anywhere while building? -/
-def weirdFold : Node → List RLogger → Bool
-  | _, [] => false
-  | t, l :: ls => weird t l.name || weirdFold (addLogger t l) ls
+def buildTree (rootLevel : Nat) (rootApps : List Nat) (ls : List RLogger) : Node × Bool :=
+  (sortByKey (fun l => byteLen l.name) ls).foldl addLogger (Node.mk rootLevel rootApps [], false)
 
 /-- the tree of `SharedLogger::new`; `none` = panic in `appender_map[..]` -/
 def build (cfg : Config) : Option Node :=
   match resolve cfg.appenders cfg.rootAppenders, resolveLoggers cfg.appenders cfg.loggers with
-  | some ra, some ls => some (buildTree cfg.rootLevel ra ls)
+  | some ra, some ls => some (buildTree cfg.rootLevel ra ls).1
   | _, _ => none
 
+/-- was the `child.add("")` branch taken anywhere while building? (read off the same `addAux` calls) -/
 def buildWeird (cfg : Config) : Option Bool :=
   match resolve cfg.appenders cfg.rootAppenders, resolveLoggers cfg.appenders cfg.loggers with
-  | some ra, some ls =>
-    some (weirdFold (Node.mk cfg.rootLevel ra []) (sortByKey (fun l => byteLen l.name) ls))
+  | some ra, some ls => some (buildTree cfg.rootLevel ra ls).2
   | _, _ => none
 
 /-! ### `Log for Logger` -/
 
-/-- the appender behind an index; indices stored in the tree come from `lastIdx`, hence are in range -/
-def nameOf (tbl : List Name) (i : Nat) : Name := tbl.getD i []
-
-/-- `ConfiguredLogger::log`: threshold, then every appender index in order -/
-def logNode (tbl : List Name) (n : Node) (lvl : Nat) : List Name :=
-  if admits n.level lvl then n.apps.map (nameOf tbl) else []
-
-/-- the loop of `ConfiguredLogger::log` when appenders may return `Err`:
-`for &idx in &self.appenders { if let Err(err) = appenders[idx].append(record) { errors.push(err) } }` —
-every index is called, an error is pushed and the loop goes on; `Logger::log` hands the collected errors
-to the error handler afterwards. Result: (appenders called, appenders whose error was reported), in order. -/
-def appendLoop (tbl : List Name) (fails : Name → Bool) : List Nat → List Name × List Name
-  | [] => ([], [])
+/-- `appenders[idx]`: the appender behind an index; out of range = the slice-index panic (`none`).
+Indices stored in the tree come from `lastIdx`, so this never happens (`build_spec`, C01_deliver_eq_spec). -/
+def namesOf (tbl : List Name) : List Nat → Option (List Name)
+  | [] => some []
   | i :: is =>
-    let r := appendLoop tbl fails is
-    (nameOf tbl i :: r.1, if fails (nameOf tbl i) then nameOf tbl i :: r.2 else r.2)
+    match tbl[i]?, namesOf tbl is with
+    | some a, some as => some (a :: as)
+    | _, _ => none
 
-def logNodeF (tbl : List Name) (fails : Name → Bool) (n : Node) (lvl : Nat) : List Name × List Name :=
-  if admits n.level lvl then appendLoop tbl fails n.apps else ([], [])
+/-- the loop of `ConfiguredLogger::log` over the appenders behind the indices, when appenders may return `Err`:
+`for &idx in &self.appenders { if let Err(err) = appenders[idx].append(record) { errors.push(err) } }` —
+every one is called, an error is pushed and the loop goes on; `Logger::log` hands the collected errors
+to the error handler afterwards. Result: (appenders called, appenders whose error was reported), in order. -/
+def appendLoop (fails : Name → Bool) : List Name → List Name × List Name
+  | [] => ([], [])
+  | a :: as =>
+    let r := appendLoop fails as
+    (a :: r.1, if fails a then a :: r.2 else r.2)
+
+/-- `ConfiguredLogger::log`: threshold, then every appender index in order; `none` = index panic -/
+def logNode (tbl : List Name) (n : Node) (lvl : Nat) : Option (List Name) :=
+  if admits n.level lvl then namesOf tbl n.apps else some []
+
+/-- … with failing appenders: calls and reported errors -/
+def logNodeF (tbl : List Name) (fails : Name → Bool) (n : Node) (lvl : Nat) : Option (List Name × List Name) :=
+  if admits n.level lvl then (namesOf tbl n.apps).map (appendLoop fails) else some ([], [])
 
 /-- `Logger::log` with failing appenders: calls and reported errors -/
 def deliverF (cfg : Config) (fails : Name → Bool) (target : Name) (lvl : Nat) : Option (List Name × List Name) :=
-  (build cfg).map fun tree => logNodeF cfg.appenders fails (find tree (comps target)) lvl
+  (build cfg).bind fun tree => logNodeF cfg.appenders fails (find tree (comps target)) lvl
 
 /-- names of the appenders called by `Logger::log` for a record, in call order -/
 def deliver (cfg : Config) (target : Name) (lvl : Nat) : Option (List Name) :=
-  (build cfg).map fun tree => logNode cfg.appenders (find tree (comps target)) lvl
+  (build cfg).bind fun tree => logNode cfg.appenders (find tree (comps target)) lvl
 
 /-- `Logger::enabled` -/
 def enabled (cfg : Config) (target : Name) (lvl : Nat) : Option Bool :=
